@@ -127,6 +127,44 @@ def check_tree(P, R):
                 R.check(ok, "COVER.tree-root", IV, f"m_step(..., {src(a) if a is not None else None})", "the single remaining element", "the M-step does not receive the root of the reduction tree", c.lineno)
 
 
+def check_partition_list(P, R):
+    """The partition list that feeds the per-partition E-step tasks is the bag's own list of partitions; if it is re-grouped by
+    slices, the groups must cover every partition (a count of `len // k` groups of width k loses the remainder)."""
+    f = P.func(IV)
+    du = get_defuse(f, P)
+    for n in walk_no_nested(f.node):
+        if not isinstance(n, ast.ListComp):
+            continue
+        if not any(isinstance(c, ast.Call) and P.peel_call(c, f)[0] == "task" and src(P.peel_call(c, f)[1]) == "e_step" for c in ast.walk(n.elt)):
+            continue
+        it = n.generators[0].iter
+        if not isinstance(it, ast.Name):
+            R.undecided("COVER.partitions", IV, src(it)[:50], "E-step tasks are not built over a named partition list")
+            continue
+        st = du.stmt_of(n)
+        for d in du.reaching(st, it.id):
+            v = d.value
+            what = f"{it.id} <- `{src(d.stmt)[:70] if hasattr(d.stmt, 'lineno') else d.how}`"
+            if d.how == "param":
+                R.ok("COVER.partitions", IV, what, "the caller's list")
+            elif d.how == "assign" and isinstance(v, ast.Call) and isinstance(v.func, ast.Attribute) and v.func.attr == "to_delayed":
+                R.ok("COVER.partitions", IV, what, "all partitions of the bag", d.stmt.lineno)
+            elif d.how == "assign" and isinstance(v, ast.ListComp):
+                g = v.generators[0]
+                slices = [x for x in ast.walk(v.elt) if isinstance(x, ast.Subscript) and isinstance(x.slice, ast.Slice)]
+                rng = g.iter
+                floor_count = isinstance(rng, ast.Call) and src(rng.func) == "range" and len(rng.args) == 1 and isinstance(rng.args[0], ast.BinOp) and isinstance(rng.args[0].op, ast.FloorDiv)
+                stepped = isinstance(rng, ast.Call) and src(rng.func) == "range" and len(rng.args) == 3
+                if slices and floor_count:
+                    R.violation("COVER.partitions", IV, what, f"the partitions are re-grouped into `{src(rng.args[0])}` slices of fixed width: when the number of partitions is not a multiple of the width the trailing partitions belong to no group and never reach an E-step", d.stmt.lineno)
+                elif slices and stepped:
+                    R.ok("COVER.partitions", IV, what, "range(0, n, k) slices cover every partition", d.stmt.lineno)
+                else:
+                    R.undecided("COVER.partitions", IV, what, "re-grouping of the partition list not recognised")
+            else:
+                R.undecided("COVER.partitions", IV, what, "origin of the partition list not recognised")
+
+
 def check_prepare(P, R):
     key = "factor_analysis:FactorAnalysisBase._prepare_dask_input"
     f = P.func(key)
@@ -235,6 +273,9 @@ def run(P, R, tier):
                 whole += 1
         R.check(whole >= 2, "COVER.mstep", key, f"both accumulators collected from every element of {prm}", "", f"the M-step does not collect both accumulators from every per-class result in {prm}")
     check_tree(P, R)
+    check_partition_list(P, R)
+    from .C10 import check_every_sample_accumulated
+    check_every_sample_accumulated(P, R)
     flds = fields.init_fields_of(P, "IVectorStats", ("dim_c", "dim_d", "dim_t"))
     fields.check_add(P, R, "IVectorStats", flds, rule="FIELDS.add[IVectorStats]")
     check_prepare(P, R)
